@@ -50,6 +50,8 @@ impl Filter {
     }
 
     fn filter_item<'a, T: Queryable>(&self, item: Pointer<'a, T>, root: &T) -> bool {
+        #[cfg(jsonpath_rust_verif)]
+        crate::verif::point(crate::verif::FILTER_CHILD);
         self.process_elem(State::data(root, Data::Ref(item.clone())))
             .ok_val()
             .and_then(|v| v.as_bool())
